@@ -21,7 +21,7 @@ CHECKS = {
     technique="Coq proof (invariant by induction over connection-event histories) + differential correspondence of callback logs and descriptor balance on live listeners",
     design="§2 C08"),
  "C05": dict(
-    text="Partial. Theorems C05_emitted_is_rendering (whatever the fixed-length writer emits is exactly the rendering status line/headers/cookies/Content-Length/blank line/body, the reported size is its length and fits the cap), C05_refused_iff_too_large (refused with nothing emitted exactly when the rendering exceeds the maximum response size), C05_exact_at_cap (size = cap accepted, cap-1 refused), C05_framing (Content-Length = |body|, blank line, body at the end), for every code, header list, cookie list and body; C05_stream_decodes (for every list of non-empty chunks the chunked body closed by the zero-length chunk decodes with an independent reader to exactly the data written) and C05_chunk_size_line_roundtrip (hex size line for every size). That the real writer's bytes ARE these renderings and that client requests are well-formed is decided by the correspondence check on bytes captured from a live endpoint / from Http::Client.",
+    text="Partial. Theorems C05_emitted_is_rendering (whatever the fixed-length writer emits is exactly the rendering status line/headers/cookies/Content-Length/blank line/body, the reported size is its length and fits the cap), C05_refused_iff_too_large (refused with nothing emitted exactly when the rendering exceeds the maximum response size), C05_exact_at_cap (size = cap accepted, cap-1 refused), C05_framing (Content-Length = |body|, blank line, body at the end), for every code, header list, cookie list and body; C05_stream_decodes (for every list of non-empty chunks the chunked body closed by the zero-length chunk decodes with an independent reader to exactly the data written) and C05_chunk_size_line_roundtrip (hex size line for every size). Streams are exercised with every way of putting data into a ResponseStream (write incl. zero bytes, << of C strings, char arrays, chars, bools, integers, flushes, a small buffer). That the real writer's bytes ARE these renderings and that client requests are well-formed is decided by the correspondence check on bytes captured from a live endpoint / from Http::Client.",
     note="Closed under the global context. Trusted: harness/h_wire.cc, canonicalisation of header order in ocaml/driver.ml.",
     technique="Coq proof (size-cap decision and framing of the writer model) + differential correspondence on bytes captured from a live endpoint",
     design="§2 C05"),
